@@ -101,7 +101,13 @@ def kname(k):
     return f"{k[0]}.{k[1]}"
 
 
+_FALSY = {"self": None, "ref": 0, "nref": "", "alias": False, "final": ()}
+
+
 def value_of(k):
+    """stored values: falsy ones under the keys other keys resolve to (a stored None / 0 / '' is a value, not an absence)"""
+    if k[1] in _FALSY and k[0] in ("D", "I"):
+        return _FALSY[k[1]]
     return f"v:{k[0]}.{k[1]}"
 
 
